@@ -52,6 +52,9 @@ def judge(acc, spec, env, recs, hang):
             bad('returned-' + d[0], 'execute returned %r' % (main['result'],))
     if len(main['writes']) > clientpolicy.max_sends(spec.retries):
         bad('too-many-sends', '%d request frames written, budget 1 + %d retries' % (len(main['writes']), spec.retries))
+    if main.get('pauses', 0) > clientpolicy.pause_budget(spec.retries, spec.backoff) + 1e-6:
+        bad('back-off-too-long', 'the call paused %.2f s between attempts, the settings allow %.2f s'
+            % (main['pauses'], clientpolicy.pause_budget(spec.retries, spec.backoff)))
     limit = clientpolicy.time_budget(spec.retries, spec.timeout, spec.backoff)
     if main['elapsed'] > limit:
         bad('too-slow', 'the call took %.1f virtual seconds, budget %.1f' % (main['elapsed'], limit))
@@ -157,12 +160,33 @@ def latency_contract(acc, kind, request, tier):
                                   % (arr[0], 'whole' if not arr[1] else 'first %d bytes, the rest %.2f s later' % (arr[1], arr[2]), d and d[:3]), kind)
 
 
+def wrap_contract(acc, kind, request):
+    """non-initial state of the transaction counter: healthy transactions while it runs over the end of its 16 bits --
+    each returns its reply, none raises"""
+    for tid0 in (0xFFFC, 0xFFFD, 0xFFFE, 0xFFFF):
+        spec = clientsim.Spec(kind, request, retries=1, backoff=0.05, history=('write-single', 'write-single'), tid0=tid0,
+                              peer_menu=['own'], read_menu=['full'], send_menu=['ok'])
+        try:
+            recs = clientsim.Sim(choice.Env([]), spec).run()
+        except clients.HorizonHit:
+            recs = None
+        acc.inc('evaluations')
+        for i, r in enumerate(recs or [None]):
+            good = r is not None and r['raised'] is None and clientsim.describe(r['result'])[0] == 'response'
+            if not good:
+                acc.violation('C13/%s/counter-wrap/healthy-transaction-failed' % kind, dict(client=kind, request=request, tid0=tid0, call=i),
+                              'transaction counter preset to %#x: healthy call %d ended with %r (raised %r)'
+                              % (tid0, i, r and clientsim.describe(r['result'])[:2], r and r['raised']), kind)
+                break
+
+
 def shard(args):
     kind, request, tier = args
     acc = Acc()
     if request == '@latency':
         for r in LATENCY_REQS:
             latency_contract(acc, kind, r, tier)
+            wrap_contract(acc, kind, r)
         return acc
     bound = 2 if tier == 'quick' else 3
     for retries in (0, 1, 2, 3):
@@ -182,6 +206,11 @@ def shard(args):
                 spec = clientsim.Spec(kind, request, retries=retries, retry_on_empty=both, retry_on_invalid=both, backoff=0.3,
                                       history=(('read-registers', 'silent'),))
                 explore_cfg(acc, spec, 1 if tier == 'quick' else 2)
+            # ... and after several of them (how long a call pauses depends on its settings, not on the client's past)
+            if retries == 2:
+                spec = clientsim.Spec(kind, request, retries=retries, retry_on_empty=True, retry_on_invalid=True, backoff=0.3,
+                                      history=(('read-registers', 'silent'),) * 3)
+                explore_cfg(acc, spec, 1)
         if retries:
             retry_contract(acc, kind, request, retries, 'empty')
             retry_contract(acc, kind, request, retries, 'invalid')
@@ -212,6 +241,10 @@ def replay(w):
         vs = [v for v in a2.violations if 'diverged' in v['witness']]
         return bool(vs), '\n'.join(v['msg'] for v in vs) or 'no divergence this time'
     acc = Acc()
+    if 'tid0' in w:
+        wrap_contract(acc, w['client'], w['request'])
+        vs = [v for v in acc.violations if v['witness'] == w]
+        return bool(vs), '\n'.join(v['msg'] for v in vs) or 'no violation'
     if 'arrival' in w:
         latency_contract(acc, w['client'], w['request'], 'thorough')
         vs = [v for v in acc.violations if v['witness'] == w]
